@@ -21,15 +21,38 @@ type scalarCodec struct {
 	ConvFrom string // convertFrom function
 	Width    int    // fixed wire width in bytes (0 = varint)
 	Pref     string // preferred Go type (decode into *interface{})
+	Sem      string // optional: format turning the wire value (signed, as int64 expression) into the value it denotes
+	Wire     string // optional: format turning the source value expression into the unsigned wire value
+	NoUntyped bool  // the preferred Go type is not modelled (time.Time): the untyped-destination part is left out
+}
+
+func (cd scalarCodec) sem(e string) string {
+	if cd.Sem == "" {
+		return e
+	}
+	return fmt.Sprintf(cd.Sem, e)
+}
+
+func (cd scalarCodec) wire(e string) string {
+	if cd.Wire == "" {
+		return "uint64(" + e + ")"
+	}
+	return fmt.Sprintf(cd.Wire, e)
 }
 
 var intCodecs = []scalarCodec{
-	{"Tinyint", "convertToInt8", "convertFromInt8", 1, "int8"},
-	{"Smallint", "convertToInt16", "convertFromInt16", 2, "int16"},
-	{"Int", "convertToInt32", "convertFromInt32", 4, "int32"},
-	{"Bigint", "convertToInt64", "convertFromInt64", 8, "int64"},
-	{"Counter", "convertToInt64", "convertFromInt64", 8, "int64"},
-	{"Varint", "convertToBigInt", "convertFromBigInt", 0, "*big.Int"},
+	{Var: "Tinyint", ConvTo: "convertToInt8", ConvFrom: "convertFromInt8", Width: 1, Pref: "int8"},
+	{Var: "Smallint", ConvTo: "convertToInt16", ConvFrom: "convertFromInt16", Width: 2, Pref: "int16"},
+	{Var: "Int", ConvTo: "convertToInt32", ConvFrom: "convertFromInt32", Width: 4, Pref: "int32"},
+	{Var: "Bigint", ConvTo: "convertToInt64", ConvFrom: "convertFromInt64", Width: 8, Pref: "int64"},
+	{Var: "Counter", ConvTo: "convertToInt64", ConvFrom: "convertFromInt64", Width: 8, Pref: "int64"},
+	{Var: "Varint", ConvTo: "convertToBigInt", ConvFrom: "convertFromBigInt", Width: 0, Pref: "*big.Int"},
+	// date / time / timestamp hand every numeric Go type on to the int / bigint conversions: days since the epoch
+	// with 2^31 added on the wire, nanoseconds of the day, milliseconds since the epoch (spec sections 5.8, 5.19, 5.20)
+	{Var: "Date", ConvTo: "convertToInt32", ConvFrom: "convertFromInt32", Width: 4, Pref: "time.Time", NoUntyped: true,
+		Sem: "int64(int32(uint32(%s) + 0x80000000))", Wire: "uint64(uint32(%s) + 0x80000000)"},
+	{Var: "Time", ConvTo: "convertToInt64", ConvFrom: "convertFromInt64", Width: 8, Pref: "time.Duration", NoUntyped: true},
+	{Var: "Timestamp", ConvTo: "convertToInt64", ConvFrom: "convertFromInt64", Width: 8, Pref: "time.Time", NoUntyped: true},
 }
 
 var goIntTypes = map[string]struct {
@@ -216,10 +239,10 @@ func genCodecHarnesses(c *CheckCtx, prop string) error {
 			if cd.Width > 0 {
 				w("\tif len(b) != %d {\n\t\tnd.Assert(false, \"%s: encoded width is %d bytes\")\n\t\treturn\n\t}\n", cd.Width, cd.Var, cd.Width)
 				if isBig {
-					w("\tif mode&mC13 != 0 {\n\t\tnd.Assert(nd.BigEqual(x, uint64(refSigned(b)), true), \"%s.Encode(%s): the encoded value equals the source value\")\n\t}\n", cd.Var, t)
+					w("\tif mode&mC13 != 0 {\n\t\tnd.Assert(nd.BigEqual(x, uint64(%s), true), \"%s.Encode(%s): the encoded value equals the source value\")\n\t}\n", cd.sem("refSigned(b)"), cd.Var, t)
 				} else {
-					w("\tif mode&mC13 != 0 {\n\t\tnd.Assert(nd.MathEqual(uint64(x), %v, uint64(refSigned(b)), true), \"%s.Encode(%s): the encoded value equals the source value\")\n\t}\n", gi.signed, cd.Var, t)
-					w("\tif mode&mC12 != 0 {\n\t\tnd.Assert(bytes.Equal(b, refBE(uint64(x), %d)), \"%s.Encode(%s): %d-byte big-endian two's complement\")\n\t}\n", cd.Width, cd.Var, t, cd.Width)
+					w("\tif mode&mC13 != 0 {\n\t\tnd.Assert(nd.MathEqual(uint64(x), %v, uint64(%s), true), \"%s.Encode(%s): the encoded value equals the source value\")\n\t}\n", gi.signed, cd.sem("refSigned(b)"), cd.Var, t)
+					w("\tif mode&mC12 != 0 {\n\t\tnd.Assert(bytes.Equal(b, refBE(%s, %d)), \"%s.Encode(%s): %d-byte big-endian two's complement\")\n\t}\n", cd.wire("x"), cd.Width, cd.Var, t, cd.Width)
 				}
 			} else {
 				w("\tif len(b) < 1 || len(b) > 17 {\n\t\tnd.Assert(len(b) >= 1, \"%s: a varint has at least one byte\")\n\t\treturn\n\t}\n", cd.Var)
@@ -242,22 +265,26 @@ func genCodecHarnesses(c *CheckCtx, prop string) error {
 				w("\t\tnd.Assert(err == nil, \"%s: own encoding decodes\")\n\t\tnd.Assert(!wasNull, \"%s: a non-null value is not reported as null\")\n", cd.Var, cd.Var)
 				w("\t\tnd.Assert(d == x, \"%s: round trip through %s returns the same value\")\n", cd.Var, t)
 			}
-			// untyped destination
-			w("\t\tvar i interface{}\n\t\twasNull, err = %s.Decode(b, &i, verifVersion)\n\t\tnd.Assert(err == nil && !wasNull, \"%s: decodes into an untyped destination\")\n", cd.Var, cd.Var)
-			if cd.Pref == "*big.Int" {
-				w("\t\tp, ok := i.(*big.Int)\n\t\tnd.Assert(ok, \"%s: untyped destination receives the preferred type *big.Int\")\n", cd.Var)
-				if isBig {
-					w("\t\tif ok {\n\t\t\tnd.Assert(p.Cmp(x) == 0, \"%s: untyped destination holds the same value\")\n\t\t}\n", cd.Var)
+			if !cd.NoUntyped {
+				// untyped destination
+				w("\t\tvar i interface{}\n\t\twasNull, err = %s.Decode(b, &i, verifVersion)\n\t\tnd.Assert(err == nil && !wasNull, \"%s: decodes into an untyped destination\")\n", cd.Var, cd.Var)
+				if cd.Pref == "*big.Int" {
+					w("\t\tp, ok := i.(*big.Int)\n\t\tnd.Assert(ok, \"%s: untyped destination receives the preferred type *big.Int\")\n", cd.Var)
+					if isBig {
+						w("\t\tif ok {\n\t\t\tnd.Assert(p.Cmp(x) == 0, \"%s: untyped destination holds the same value\")\n\t\t}\n", cd.Var)
+					} else {
+						w("\t\tif ok {\n\t\t\tnd.Assert(nd.BigEqual(p, uint64(x), %v), \"%s: untyped destination holds the same value\")\n\t\t}\n", gi.signed, cd.Var)
+					}
 				} else {
-					w("\t\tif ok {\n\t\t\tnd.Assert(nd.BigEqual(p, uint64(x), %v), \"%s: untyped destination holds the same value\")\n\t\t}\n", gi.signed, cd.Var)
+					w("\t\tp, ok := i.(%s)\n\t\tnd.Assert(ok, \"%s: untyped destination receives the preferred type %s\")\n", cd.Pref, cd.Var, cd.Pref)
+					if isBig {
+						w("\t\tif ok {\n\t\t\tnd.Assert(nd.BigEqual(x, uint64(p), true), \"%s: untyped destination holds the same value\")\n\t\t}\n", cd.Var)
+					} else {
+						w("\t\tif ok {\n\t\t\tnd.Assert(nd.MathEqual(uint64(p), true, uint64(x), %v), \"%s: untyped destination holds the same value\")\n\t\t}\n", gi.signed, cd.Var)
+					}
 				}
 			} else {
-				w("\t\tp, ok := i.(%s)\n\t\tnd.Assert(ok, \"%s: untyped destination receives the preferred type %s\")\n", cd.Pref, cd.Var, cd.Pref)
-				if isBig {
-					w("\t\tif ok {\n\t\t\tnd.Assert(nd.BigEqual(x, uint64(p), true), \"%s: untyped destination holds the same value\")\n\t\t}\n", cd.Var)
-				} else {
-					w("\t\tif ok {\n\t\t\tnd.Assert(nd.MathEqual(uint64(p), true, uint64(x), %v), \"%s: untyped destination holds the same value\")\n\t\t}\n", gi.signed, cd.Var)
-				}
+				w("\t\t_ = wasNull\n")
 			}
 			w("\t}\n}\n")
 			if wrappers && prop != "C14" {
@@ -296,9 +323,9 @@ func genCodecHarnesses(c *CheckCtx, prop string) error {
 			w("\tif err == nil && mode&(mC13|mC12) != 0 {\n")
 			switch {
 			case cd.Width > 0 && isBig:
-				w("\t\tnd.Assert(nd.BigEqual(d, uint64(refSigned(b)), true), \"%s.Decode(%s): the delivered value equals the encoded value\")\n", cd.Var, t)
+				w("\t\tnd.Assert(nd.BigEqual(d, uint64(%s), true), \"%s.Decode(%s): the delivered value equals the encoded value\")\n", cd.sem("refSigned(b)"), cd.Var, t)
 			case cd.Width > 0:
-				w("\t\tnd.Assert(nd.MathEqual(uint64(d), %v, uint64(refSigned(b)), true), \"%s.Decode(%s): the delivered value equals the encoded value\")\n", gi.signed, cd.Var, t)
+				w("\t\tnd.Assert(nd.MathEqual(uint64(d), %v, uint64(%s), true), \"%s.Decode(%s): the delivered value equals the encoded value\")\n", gi.signed, cd.sem("refSigned(b)"), cd.Var, t)
 			case isBig:
 				w("\t\tnd.Assert(d.Cmp(refVarintValue(b)) == 0, \"%s.Decode(%s): the delivered value equals the encoded value\")\n", cd.Var, t)
 			default:
